@@ -262,12 +262,25 @@ func (in *objIndex) search(o Object, field string, operator string, value interf
 }
 
 func (in *objIndex) control() error {
+	if len(in.uuids) != len(in.ObjectIds) {
+		return fmt.Errorf("several object ids for the same uuid")
+	}
+
 	for fn := range in.Fields {
 		if !in.Fields[fn].Control() {
 			return fmt.Errorf("field index %s is not ordered", fn)
 		}
 		if in.Fields[fn].Len() != in.len() {
 			return fmt.Errorf("index and fields index must have the same size, len(index)=%d len(index[%s])=%d", in.len(), fn, in.Fields[fn].Len())
+		}
+		// field index must hold exactly one entry per indexed object
+		if len(in.Fields[fn].objectIds) != in.Fields[fn].Len() {
+			return fmt.Errorf("field index %s has several entries for the same object", fn)
+		}
+		for id := range in.Fields[fn].objectIds {
+			if _, ok := in.ObjectIds[id]; !ok {
+				return fmt.Errorf("field index %s has an entry for unknown object id %d", fn, id)
+			}
 		}
 	}
 	return nil
